@@ -298,6 +298,7 @@ func checkC06(c *Ctx) {
 	}
 	c.R.Floor("I1.utc", 1)
 	c.R.Floor("I4.const", 4)
+	c.ruleSignedDefinition("I8.samevar")
 }
 
 func constIs(v ssa.Value, k int64) bool {
@@ -620,4 +621,76 @@ func hasByteSliceParam(fn *ssa.Function) bool {
 		}
 	}
 	return false
+}
+
+// ruleSignedDefinition (I8.samevar): the variable definition that goes to the
+// store after signing is the one that was handed to the signer: name, GUID and
+// attributes are part of what is signed, so a definition changed in between is
+// written with attributes (or a name) the signature does not cover.
+func (c *Ctx) ruleSignedDefinition(rule string) {
+	fn := c.Fn(rule, "efivarfs.(*Efivarfs).WriteSignedUpdate")
+	if fn == nil {
+		return
+	}
+	vP := paramByNamed(fn, M+"/efivar.Efivar")
+	if vP == nil {
+		c.R.Infof(rule, name(fn), "same-definition", c.Pos(fn.Pos()), "not decided for this shape: no efivar.Efivar parameter")
+		return
+	}
+	bad := ""
+	// stores into the definition (it is spilled to a cell when its fields are assigned)
+	if vP.Referrers() != nil {
+		for _, r := range *vP.Referrers() {
+			st, ok := r.(*ssa.Store)
+			if !ok {
+				continue
+			}
+			cell, isA := st.Addr.(*ssa.Alloc)
+			if !isA {
+				continue
+			}
+			for _, cr := range *cell.Referrers() {
+				fa, isFA := cr.(*ssa.FieldAddr)
+				if !isFA {
+					continue
+				}
+				for _, fr := range *fa.Referrers() {
+					if s2, isSt := fr.(*ssa.Store); isSt && s2.Addr == ssa.Value(fa) {
+						bad = "field " + ir.FieldOf(fa).Name() + " of the definition is assigned at " + c.IPos(s2)
+					}
+				}
+			}
+		}
+	}
+	// both calls receive the parameter
+	sawSign, sawWrite := false, false
+	instrsOf(fn, func(i ssa.Instruction) {
+		call, ok := i.(ssa.CallInstruction)
+		if !ok {
+			return
+		}
+		isSign := ir.CallID(call) == sigPkg+".SignEFIVariable"
+		isWrite := call.Common().IsInvoke() && call.Common().Method.Name() == "WriteVar" || ir.Callee(call) != nil && ir.Callee(call).Name() == "WriteVar"
+		if !isSign && !isWrite {
+			return
+		}
+		for _, a := range ir.CallArgs(call) {
+			if ir.NamedTypeID(a.Type()) != M+"/efivar.Efivar" {
+				continue
+			}
+			if !c.sliceOf(a)[vP] {
+				bad = "the definition passed at " + c.IPos(i) + " is not the caller's"
+			}
+			if isSign {
+				sawSign = true
+			} else {
+				sawWrite = true
+			}
+		}
+	})
+	if !sawSign || !sawWrite {
+		c.R.Infof(rule, name(fn), "same-definition", c.Pos(fn.Pos()), "not decided for this shape: the signing call and the write call with a variable definition are not both found in "+name(fn))
+		return
+	}
+	c.R.Check(bad == "", rule, name(fn), "same-definition", c.Pos(fn.Pos()), "the definition written is the definition signed (name, GUID and attributes are bound by the signature)", bad+": what is written differs from what was signed")
 }
